@@ -20,7 +20,8 @@ EXPLANATION = (
     "span contents and rendering for every input."
     " ADDED LATER: R7 a merged location takes line and column from its receiver: Tokens::location_of_span and the cast site build start.combined_with(end)."
     " ROUND 8: R8-DERIVED-SPANS: a span derived from a location in the report builder has the location's own ends, unmodified (label_before_start = start..start, label_after_end = end..end); a span reaching past the location can reach past the end of the file and the renderer drops the label."
-    " ROUND 10: R9-OPERATOR-LOCATION-AFTER-POP: in the first-generation parser a read of tokens.last_location that ends up as a location_of_op directly follows the statement that pops the operator token (6 sites).")
+    " ROUND 10: R9-OPERATOR-LOCATION-AFTER-POP: in the first-generation parser a read of tokens.last_location that ends up as a location_of_op directly follows the statement that pops the operator token (6 sites)."
+    " ROUND 11: R11-EXPRESSION-LOCATION: for each variant of Expression that has a `location` field (12), Expression::location() answers with that field, not with the location of a part; R10-ESCAPE-SPAN (/repo fix ca57e48): the span end advanced for an escape character is taken back when the line ends after the backslash.")
 
 ERR = "alpha::error::Error"
 
